@@ -299,7 +299,8 @@ func c16VariantClass(v string) string {
 func c16Run(t *testing.T, c *vkit.Check, memo map[string]bool, cs c16Case, offer string) {
 	locals := c16Locals(cs)
 	api := vNewAPI(t, vAPIOpts{
-		media: func(m *MediaEngine) error { return c16Register(m, locals) },
+		virtualNet: true,
+		media:      func(m *MediaEngine) error { return c16Register(m, locals) },
 		// an empty virtual network: creating the ICE agent does not enumerate the host's interfaces
 		setting: func(s *SettingEngine) {
 			if n, err := vnet.NewNet(&vnet.NetConfig{}); err == nil {
